@@ -1,7 +1,7 @@
 (* Prop_C04.v — the property theorems of C04 and nothing else. *)
 From Coq Require Import List NArith ZArith Bool.
 Import ListNotations.
-From Verif Require Import Base.Val C01.Model_C01 C04.Model_C04 C04.Spec_C04 C04.Proofs_C04.
+From Verif Require Import Base.Val C01.Model_C01 C04.Model_C04 C04.Spec_C04 C04.Proofs_C04 C04.Negate_C04.
 
 (* atom.match is PMS matching for EVERY sign-valued version comparison, every well-formed atom
    record and every package, outside the two known classes (K1: `=*` text ending inside a version
@@ -12,6 +12,15 @@ Theorem match_is_pms_partial : forall vc a p,
   atom_match vc a p = pms_match vc a p.
 Proof. exact match_is_pms_partial_proof. Qed.
 Print Assumptions match_is_pms_partial.
+
+(* the same for atoms built with negate_vers=True: the version clause of <,<=,=,>=,>,~ is inverted,
+   `=*` and unversioned atoms ignore the flag (no premise on negate_vers) *)
+Theorem match_is_pms_negate_partial : forall vc a p,
+  sign_valued vc -> wf_atom a = true ->
+  known_glob a p = false -> known_use_nand a p = false ->
+  atom_match vc a p = pms_match_nv vc a p.
+Proof. exact match_is_pms_negate_partial_proof. Qed.
+Print Assumptions match_is_pms_negate_partial.
 
 (* the full statement is false of the faithful model: =a/b-1* matches a/b-10 *)
 Theorem match_is_pms_refuted :
